@@ -7,7 +7,7 @@
    ([wf_cfg]), ALL sequences of sequencer responses (SErr | SNil | SBatch txs ts cursor, any txs, any
    timestamps) and ALL execution outcomes (EOk root | EErr, InitChain Some/None), of any length. *)
 From Coq Require Import String NArith ZArith List Bool.
-From Verif Require Import Base.KV Base.Keys Model.Types Model.Producer Proofs.ProducerProofs.
+From Verif Require Import Base.KV Base.Keys Model.Types Model.Producer Proofs.ProducerProofs Proofs.ProducerRestartProofs.
 Import ListNotations.
 Open Scope N_scope.
 
@@ -76,6 +76,45 @@ Theorem C01_served_full : forall (c : cfg) (h : list item),
   (forall n, H + 1 < n -> c_initial c < n -> served st n = None).
 Proof. exact served_crash_free. Qed.
 Print Assumptions C01_served_full.
+
+(* (4) FULL.  RESTARTS inside a run.  The crash-free histories of (1)-(3) contain start-ups ([IRun (ABoot _)]:
+   NewManager -> getInitialState on the same database; a running process is discarded) at ANY position, so
+   (1)-(3) already hold after a restart that follows a FAILED production step (execution error or validation
+   error after the early save: the unsigned, unexecuted pending block lies above the recorded state).  What a
+   restart does is stated here on its own: at any point of a crash-free history at which a state is recorded,
+   a start-up succeeds, performs NO datastore write (the store height is not moved), does not consult InitChain,
+   changes no log, and the new process holds the recorded state and the recorded batch cursor. *)
+Theorem C01_restart_writes_nothing_full : forall (c : cfg) (h : list item) (ic : option root) (s : cstate),
+  wf_cfg c -> crash_free h = true -> g_state (img_of (run c h)) = Some s ->
+  let st := run c h in
+  let r := exec_item c st (IRun (ABoot ic)) in
+  o_res (snd r) = OBootOk /\ o_ws (snd r) = [] /\
+  img_of (fst r) = img_of st /\
+  vol_of (fst r) = Some {| v_state := s; v_cursor := g_cursor (img_of st) |} /\
+  g_inits (fst r) = g_inits st /\ g_built (fst r) = g_built st /\ g_execs (fst r) = g_execs st.
+Proof. exact restart_item_crash_free. Qed.
+Print Assumptions C01_restart_writes_nothing_full.
+
+(* (4') FULL, the consequences for what the node reports and for liveness: after [h ++ [restart]] the store
+   height is the height of the RECORDED STATE (a block found above it — the pending block of a failed step —
+   is not covered by the height, i.e. not reported as committed), every height serves what it served before,
+   the process runs on the recorded state, and a well-formed pair of responses commits height+1 in the very
+   next step; when a pending block is stored, that step commits exactly it (signed now), it does not build
+   another block. *)
+Theorem C01_restart_full : forall (c : cfg) (h : list item) (ic : option root) (s : cstate),
+  wf_cfg c -> crash_free h = true -> g_state (img_of (run c h)) = Some s ->
+  let st := run c h in
+  let st' := run c (h ++ [IRun (ABoot ic)]) in
+  img_of st' = img_of st /\
+  g_height (img_of st') = s_height s /\
+  (forall n, served st' n = served st n) /\
+  (exists v, vol_of st' = Some v /\ v_state v = s /\ v_cursor v = g_cursor (img_of st) /\
+     forall sq e, wf_resp c st' sq e = true ->
+       a_out (step c (img_of st') v sq e) = OCommitted (s_height s + 1) /\
+       (forall pb, served st (s_height s + 1) = Some pb ->
+          a_pre (step c (img_of st') v sq e) = [w_block (s_height s + 1) (final_block c pb)])).
+Proof. exact restart_crash_free. Qed.
+Print Assumptions C01_restart_full.
 
 (* ---- non-vacuity: a concrete history meeting every hypothesis: initial height 5, a failed first start,
    the genesis block, a two-transaction block, an empty block with an EQUAL timestamp, a transient
@@ -157,4 +196,30 @@ Example ex_empty_root :
   /\ map o_call (outputs f1_cfg (firstn 4 er_history)) =
        [None; Some (1, [], 0%Z, 1); Some (2, [5; 6], 1000%Z, 2); Some (3, [7; 8; 9], 2000%Z, 0)]
   /\ option_map s_app (g_state (img_of (run f1_cfg er_history))) = Some 4.
+Proof. vm_compute. repeat split. Qed.
+
+(* a restart after a FAILED step: the execution layer fails for height 2 (item 3) — the early-saved block 2
+   (empty signature record, header signature = that of block 1, ValidateBasic fails) lies above the recorded
+   state of height 1; the restart (item 4; its InitChain answer is irrelevant) writes nothing, the store height
+   stays 1, height 2 still serves the unsigned pending block and is NOT committed; the next step — whatever the
+   sequencer answers — executes, signs and commits exactly that block; then the chain goes on.  The hypotheses
+   of (4)/(4') are met at the restart. *)
+Definition rs_history : list item :=
+  [ IRun (ABoot (Some 1)); IRun (AStep SNil (EOk 2));
+    IRun (AStep (SBatch [5; 6] 1000%Z 1) EErr);
+    IRun (ABoot (Some 9));
+    IRun (AStep SErr (EOk 3));
+    IRun (AStep (SBatch [7] 2000%Z 2) (EOk 4)) ].
+Example ex_restart_after_failed_step :
+  let before := run f1_cfg (firstn 3 rs_history) in
+  let after := run f1_cfg (firstn 4 rs_history) in
+  crash_free rs_history = true /\
+  option_map s_height (g_state (img_of before)) = Some 1 /\
+  map o_res (outputs f1_cfg rs_history) = [OBootOk; OCommitted 1; OErrExec; OBootOk; OCommitted 2; OCommitted 3] /\
+  map (fun o => List.length (o_ws o)) (outputs f1_cfg rs_history) = [1; 3; 2; 0; 3; 5]%nat /\
+  g_height (img_of before) = 1 /\ g_height (img_of after) = 1 /\
+  option_map (fun b => (b_sig b, validate_basic (b_sh b))) (served after 2) = Some (SigEmpty, false) /\
+  option_map (fun b => (d_txs (b_data b), validate_basic (b_sh b))) (served (run f1_cfg (firstn 5 rs_history)) 2) = Some ([5; 6], true) /\
+  option_map hdr_of (served (run f1_cfg (firstn 5 rs_history)) 2) = option_map hdr_of (served before 2) /\
+  option_map s_app (g_state (img_of (run f1_cfg rs_history))) = Some 4.
 Proof. vm_compute. repeat split. Qed.
